@@ -24,7 +24,7 @@ REPLAYS = os.path.join(EVID, "replays")
 WORKROOT = os.environ.get("VERIF_WORK") or os.path.join(ROOT, ".work")
 FINDINGS = os.path.join(ROOT, "known_findings.json")
 TLA_CP = "/opt/veriftools/tla/tla2tools.jar:/opt/veriftools/tla/CommunityModules-deps.jar"
-REPO = os.environ.get("VERIF_REPO", "/repo")
+REPO = (os.environ.get("VERIF_REPO") or "/repo")
 
 
 class MachineryError(Exception):
